@@ -86,17 +86,75 @@ def producers() -> List[Tuple[str, ...]]:
 
 
 def abstract_kind(p: Tuple[str, ...]) -> str:
-    return "absent" if p[0] in ("nothing", "nl0") else p[1]
+    return "absent" if p[0] in ("nothing", "nl0", "nothing-new") else p[1]
 
 
 def key_kind(p: Tuple[str, ...]) -> str:
-    return {"nothing": "nothing", "nl0": "empty-nodelist"}.get(p[0], p[-1])
+    return {"nothing": "nothing", "nl0": "empty-nodelist", "nothing-new": "nothing-as-new-instance"}.get(p[0], p[-1])
+
+
+def fresh_nothing_producers(model: Model) -> List[str]:
+    """Built-in functions whose 'nothing' result is not the NOTHING singleton but another instance of Nothing.
+
+    The comparison cells then also take such an instance as a comparand: 'nothing from a function' must behave
+    as nothing whichever object represents it."""
+    from ..absctx import Unsupported
+    from ..absval import Inst
+
+    ff = model.cls("function_extensions.filter_function.FilterFunction")
+    ncls = model.cls("filter_expressions.Nothing")
+    out: List[str] = []
+    for ci in model.subclasses(ff, strict=True):
+        call = ci.find_method("__call__")
+        if call is None or "abstractmethod" in call.decorators:
+            continue
+        n_params = len(call.node.args.args) - 1
+        if n_params < 1 or n_params > 2:
+            continue
+        shapes = ["nothing", "nl0", "nl1"] + KINDS
+        import itertools
+
+        for combo in itertools.product(shapes, repeat=n_params) if n_params == 1 else [(a, "str") for a in shapes]:
+
+            def body(it: Any, combo=combo, ci=ci, call=call) -> Any:
+                f = it.new_inst(ci, "fn")
+                args = []
+                for i, c in enumerate(combo):
+                    if c == "nothing":
+                        args.append(nothing(it, model))
+                    elif c == "nl0":
+                        args.append(make_nodelist(it, model, [], f"a{i}"))
+                    elif c == "nl1":
+                        args.append(make_nodelist(it, model, [make_node(it, model, it.new_sym(f"v{i}"), f"a{i}")], f"a{i}"))
+                    else:
+                        args.append(it.new_sym(f"a{i}", [c]))
+                r = it.call_function(call, [f] + args, {}, None, self_av=f)
+                return r, nothing(it, model)
+
+            from .. import harness as _h
+
+            saved, _h.MONITOR = _h.MONITOR, None  # ill-typed calls are explored too; their exceptions are not findings
+            try:
+                runs = paths(model, body)
+            except (Unsupported, AnalysisError):
+                continue
+            finally:
+                _h.MONITOR = saved
+            for run in runs:
+                if run.kind == "raise":
+                    continue
+                r, glob = run.value
+                if isinstance(r, Inst) and r.cls is ncls and r is not glob and ci.qualname not in out:
+                    out.append(ci.qualname)
+    return out
 
 
 def witness(op: str, lp: Tuple[str, ...], rp: Tuple[str, ...], world: str) -> str:
     def side(p: Tuple[str, ...], name: str) -> Tuple[str, Optional[str]]:
         if p[0] == "nothing":
             return f"value(@.{name}_missing[*])", None
+        if p[0] == "nothing-new":
+            return f"<function returning a new Nothing()>(@.{name})", None
         if p[0] == "nl0":
             return f"@.{name}_missing", None
         if p[0] == "value":
@@ -130,6 +188,10 @@ def check(model: Model, report: Report) -> None:
         raise AnalysisError("anchor vanished: ComparisonExpression.evaluate")
     site = ev.qualname
     prods = producers()
+    fresh = fresh_nothing_producers(model)
+    if fresh:
+        prods.append(("nothing-new",))
+    report.extra["nothing_producers"] = {"singleton": True, "new_instances_from": fresh}
     thorough = report.tier == "thorough"
     touched: set = set()
     n_paths = 0
@@ -149,6 +211,8 @@ def check(model: Model, report: Report) -> None:
                     def mk(p: Tuple[str, ...], name: str) -> Tuple[Any, Any]:
                         if p[0] == "nothing":
                             return nothing(it, model), None
+                        if p[0] == "nothing-new":
+                            return it.instantiate(model.cls("filter_expressions.Nothing"), [], {}, None), None
                         if p[0] == "nl0":
                             return make_nodelist(it, model, [], name), None
                         s = it.new_sym(name, [p[1]])
